@@ -38,7 +38,7 @@ Draws2(vs) == [k \in DOMAIN vs |-> U16(vs[k])]
 (* generic machinery: lazily sample the oracle until the call completes *)
 
 Dispatch(r, op, a) ==
-  CASE op = "commit"       -> Commit(r, a.share, a.b1, a.b2)
+  CASE op = "commit"       -> Commit(r, a.share, a.r1, a.r2)
     [] op = "sign"         -> Sign(r, a.pkg, a.non, a.kp)
     [] op = "verify_share" -> VerifyShare(r, a.id, a.Y, a.z, a.pkg, a.vk)
     [] op = "aggregate"    -> Aggregate(r, a.pkg, a.shares, a.pkp, a.mode)
@@ -134,10 +134,11 @@ ActReconstruct(kphs) ==
 -----------------------------------------------------------------------------
 (* round1.rs *)
 
-\* commit(signing_share, rng): b1, b2 select the two 32-byte draws
-ActCommit(nonh, commh, kph, b1, b2) ==
+\* commit(signing_share, rng) with the two 32-byte draws r1, r2; `rngf` is how the
+\* script spells the draws (shorthand rng32 in model checking, full bytes in traces)
+ActCommitR(nonh, commh, kph, r1, r2, rngf) ==
   /\ Has(kph)
-  /\ \E o \in Outcomes(ro, "commit", [share |-> env[kph].share, b1 |-> b1, b2 |-> b2]) :
+  /\ \E o \in Outcomes(ro, "commit", [share |-> env[kph].share, r1 |-> r1, r2 |-> r2]) :
        LET res == o[2] IN
        /\ ro' = o[1]
        /\ Finish("commit", res,
@@ -145,10 +146,36 @@ ActCommit(nonh, commh, kph, b1, b2) ==
                     IF h = nonh THEN [ty |-> "non", hiding |-> res.hiding, binding |-> res.binding,
                                           D |-> res.D, E |-> res.E]
                     ELSE [ty |-> "comm", D |-> res.D, E |-> res.E]],
-                 [op |-> "commit", out_non |-> nonh, out_comm |-> commh, kp |-> kph,
-                  rng32 |-> <<b1, b2>>,
-                  expect |-> [ok |-> TRUE, hiding |-> res.hiding, binding |-> res.binding,
+                 [op |-> "commit", out_non |-> nonh, out_comm |-> commh, kp |-> kph] @@ rngf @@
+                 [expect |-> [ok |-> TRUE, hiding |-> res.hiding, binding |-> res.binding,
                               D |-> res.D, E |-> res.E]])
+
+\* b1, b2 select the two draws (31 zero bytes followed by b)
+ActCommit(nonh, commh, kph, b1, b2) ==
+  ActCommitR(nonh, commh, kph, Rand32(b1), Rand32(b2), [rng32 |-> <<b1, b2>>])
+
+
+\* preprocess(k, share, rng) with 2k 32-byte draws rs -> nonces <<nn, j>>, commitments <<cn, j>>
+ActPreprocessR(nn, cn, kph, rs, rngf) ==
+  /\ Has(kph)
+  /\ LET k == Len(rs) \div 2
+         RECURSIVE Run(_, _, _)
+         Run(r, j, acc) ==
+           IF j > k THEN {<<r, acc>>}
+           ELSE UNION { Run(o[1], j + 1, Append(acc, o[2])) :
+                          o \in Outcomes(r, "commit", [share |-> env[kph].share, r1 |-> rs[2*j - 1], r2 |-> rs[2*j]]) }
+     IN \E o \in Run(ro, 1, << >>) :
+          LET pairs == o[2] IN
+          /\ ro' = o[1]
+          /\ Finish("preprocess", [ok |-> TRUE, pairs |-> pairs],
+                    [h \in {<<nn, j>> : j \in 1..k} \cup {<<cn, j>> : j \in 1..k} |->
+                       IF h[1] = nn THEN [ty |-> "non", hiding |-> pairs[h[2]].hiding, binding |-> pairs[h[2]].binding,
+                                          D |-> pairs[h[2]].D, E |-> pairs[h[2]].E]
+                       ELSE [ty |-> "comm", D |-> pairs[h[2]].D, E |-> pairs[h[2]].E]],
+                    [op |-> "preprocess", k |-> k, out_non |-> nn, out_comm |-> cn, kp |-> kph] @@ rngf @@
+                    [expect |-> [ok |-> TRUE,
+                                 pairs |-> [j \in 1..k |-> [hiding |-> pairs[j].hiding, binding |-> pairs[j].binding,
+                                                            D |-> pairs[j].D, E |-> pairs[j].E]]]])
 
 \* adversary / network: a commitment with one side altered
 \*   what = "D" / "E" (add d*G), "swap" (exchange hiding and binding)
@@ -444,6 +471,15 @@ ActRrSign(out, pkgh, nonh, kph, seedh) ==
        /\ Finish("rr_sign", res, IF res.ok THEN (out :> [ty |-> "zs", z |-> res.z]) ELSE << >>,
                  [op |-> "rr_sign", out |-> out, pkg |-> pkgh, non |-> nonh, kp |-> kph, seed |-> seedh,
                   expect |-> IF res.ok THEN [ok |-> TRUE, z |-> res.z] ELSE ErrProj(res)])
+
+\* deprecated sign(pkg, nonces, kp, randomizer): signing with the randomized key package
+ActRrSignFixed(out, pkgh, nonh, kph, rph) ==
+  /\ Has(pkgh) /\ Has(nonh) /\ Has(kph) /\ Has(rph)
+  /\ \E o \in Outcomes(ro, "sign", [pkg |-> env[pkgh], non |-> env[nonh], kp |-> RandomizeKp(env[kph], env[rph])]) :
+       /\ ro' = o[1]
+       /\ Finish("rr_sign_fixed", o[2], IF o[2].ok THEN (out :> [ty |-> "zs", z |-> o[2].z]) ELSE << >>,
+                 [op |-> "rr_sign_fixed", out |-> out, pkg |-> pkgh, non |-> nonh, kp |-> kph, rp |-> rph,
+                  expect |-> IF o[2].ok THEN [ok |-> TRUE, z |-> o[2].z] ELSE ErrProj(o[2])])
 
 ActRrAggregate(out, pkgh, slots, pkph, mode, rph) ==
   /\ Has(pkgh) /\ Has(pkph) /\ Has(rph) /\ \A i \in DOMAIN slots : Has(slots[i])
